@@ -47,7 +47,12 @@ C01World(id, depth, shape) ==
                      Secret(base + 6, "s3", 3),              \* base+7
                      Ascii(root, "zqzq.txt", 5, 1, "txt"),   \* base+8
                      Ascii(base + 3, "zqzq.txt", 5, 2, "txt"), \* base+9
-                     Secret(par, "f.txt", 4) >>              \* base+10  an outside file with an inside file's name
+                     Secret(par, "f.txt", 4),                \* base+10  an outside file with an inside file's name
+                     \* siblings whose NAMES extend the root's name: a containment test on path strings instead of path
+                     \* components takes them for descendants of the root
+                     Dn(par, "root-private"),                 \* base+11
+                     Secret(base + 11, "s4", 5),             \* base+12
+                     Secret(par, "root.bak", 6) >>           \* base+13
         \* the name of the secret that sits next to the root (level of the root's parent)
         near == IF depth = 1 THEN "s0" ELSE IF depth = 2 THEN "s1" ELSE "s2"
         link == CASE shape = 0 -> <<>>
@@ -124,7 +129,21 @@ FlatWorld(id) ==
         Pn(4, "data.pdf", 257, 9, "pdf", "pdf", ""),         \* 12
         Ln(4, "rel", FALSE, <<"sub2", "index.html">>),       \* 13 link in a sub-directory with a relative target
         Pn(4, "k64.bin", 65536, 13, "bin", "bin", ""),       \* 14 exactly one 64 KiB block
-        Pn(4, "k64m.wav", 65535, 14, "wav", "wav", "")       \* 15 one byte short of it
+        Pn(4, "k64m.wav", 65535, 14, "wav", "wav", ""),      \* 15 one byte short of it
+        \* two lookup candidates: the file itself wins over <name>.html; a directory's index.html wins over <dir>.html
+        Pn(1, "both", 21, 15, "", "", ""),                   \* 16
+        Pn(1, "both.html", 22, 16, "html", "html", "both"),  \* 17
+        Dn(1, "about"),                                      \* 18
+        Pn(18, "index.html", 23, 17, "html", "html", "index"),   \* 19
+        Pn(1, "about.html", 24, 18, "html", "html", "about"),    \* 20
+        Pn(18, "zqzq.bin", 3, 4, "bin", "bin", ""),          \* 21
+        Pn(1, ".hidden.txt", 25, 19, "txt", "txt", ""),      \* 22 a hidden file is a file
+        \* text-like content (BOM, CRLF / LF / CR line ends, NUL, trailing line break): lengths chosen by what the file ends with
+        Fn(1, "crlf.txt", 8, 0, "text", "txt", "txt", ""),   \* 23 ends with CR LF
+        Fn(1, "bom.html", 11, 0, "text", "html", "html", "bom"), \* 24 ends with LF
+        Fn(1, "cr.css", 12, 0, "text", "css", "css", ""),    \* 25 ends with a lone CR
+        Fn(1, "long.svg", 4600, 0, "text", "svg", "svg", ""),\* 26 two hundred repetitions
+        Fn(1, "nul.js", 15, 0, "text", "js", "js", "")       \* 27 ends with a NUL
       >>]
 
 \* a root that holds its own copy of every reserved asset name (and a sub-directory that holds the same names,
